@@ -73,3 +73,78 @@ def hung_attempt_runs(ctx, prop, rounds=1):
                     ctx.viol("outcome-wrong-attempts", f"[retry.execute] healthy operation after 5 hung ones: outcome.attempts={final[1].attempts}, ok={final[1].ok}, invoked {len(inv)} time(s)", {"hang": desc})
     finally:
         release.set()
+
+
+def cancel_while_unwinding(ctx, rounds=1):
+    """C13, one more cancellation point of async runs under attempt_timeout_s (real loop, real time): the attempt has timed out,
+    its operation is still unwinding (a cleanup that awaits) and the cancellation of the whole run arrives exactly then.
+    It must propagate at once: no classification of a 'timeout', no backoff, no further invocation."""
+    import asyncio
+
+    from redress import AsyncPolicy, AsyncRetry, AsyncRetryPolicy
+
+    async def one(kind, meth, when):
+        inv = []
+        sleeps = []
+        events = []
+        unwinding = asyncio.Event()
+        proceed = asyncio.Event()
+
+        async def op():
+            inv.append(len(inv) + 1)
+            if len(inv) > 1:
+                return "ok"
+            try:
+                await asyncio.Event().wait()  # hangs: attempt_timeout_s fires
+            except asyncio.CancelledError:
+                unwinding.set()
+                await proceed.wait()  # cleanup that awaits (closing a connection, releasing a lease)
+                raise
+
+        async def sleeper(s):
+            sleeps.append(s)
+
+        kw = dict(classifier=lambda e: ErrorClass.TRANSIENT, strategy=lambda c: 0.0, attempt_timeout_s=0.02, max_attempts=3, deadline_s=60.0)
+        pol = AsyncRetry(**kw) if kind == "retry" else AsyncPolicy(retry=AsyncRetry(**kw)) if kind == "policy" else AsyncRetryPolicy(**kw)
+        ckw = dict(on_metric=lambda ev, a, s, t: events.append((ev, a)), sleeper=sleeper)
+        task = asyncio.ensure_future(pol.execute(op, **ckw) if meth == "execute" else pol.call(op, **ckw))
+        await asyncio.wait_for(unwinding.wait(), 5.0)
+        if when == "during-cleanup":
+            task.cancel()
+            await asyncio.sleep(0)
+            proceed.set()
+        else:  # control: the cleanup finishes, the run goes on to its backoff; cancelled nowhere
+            proceed.set()
+        try:
+            r = await asyncio.wait_for(task, 5.0)
+            return inv, sleeps, events, ("return", r)
+        except asyncio.CancelledError as x:
+            return inv, sleeps, events, ("raise", x)
+        except BaseException as x:  # noqa: BLE001
+            return inv, sleeps, events, ("raise", x)
+
+    for _ in range(rounds):
+        for kind in ("retry", "policy", "rp"):
+            for meth in ("call", "execute"):
+                for when in ("during-cleanup", "never"):
+                    loop = asyncio.new_event_loop()
+                    try:
+                        try:
+                            inv, sleeps, events, final = loop.run_until_complete(one(kind, meth, when))
+                        except asyncio.TimeoutError:
+                            ctx.inconclusive_because(f"watchdog: a{kind}.{meth} cancel-{when} did not finish within 5 s")
+                            continue
+                    finally:
+                        loop.close()
+                    ctx.inc("runs")
+                    if when == "never":
+                        ctx.inc("timed_out_attempt_controls")
+                        continue
+                    ctx.inc("cancellations_while_a_timed_out_attempt_unwinds")
+                    ctx.add("cells", f"a{kind}.{meth}|cancel-while-unwinding")
+                    desc = {"entry": f"a{kind}.{meth}", "invocations": inv, "sleeps": sleeps, "events": events, "final": repr(final[1])[:200]}
+                    if final[0] != "raise" or not isinstance(final[1], asyncio.CancelledError):
+                        ctx.viol("cancellation-swallowed-while-timed-out-attempt-unwinds", f"[a{kind}.{meth}] the run was cancelled while its timed-out attempt was still unwinding; it ended with {final[0]} {final[1]!r} "
+                                 f"instead of CancelledError (invocations {inv}, sleeps {sleeps}, events {events})", {"hang": desc})
+                    elif len(inv) > 1 or sleeps or events:
+                        ctx.viol("work-after-cancellation", f"[a{kind}.{meth}] cancelled while the timed-out attempt was unwinding, yet invocations {inv}, sleeps {sleeps}, events {events}", {"hang": desc})
